@@ -1,116 +1,99 @@
 /-
   C10  Truncation returns the latest unit boundary not after the value.
-  (Layer 1: the sub-day units and the day unit on timestamps, and the weekday-anchored week units on dates,
-   each proved to be the greatest boundary ≤ x by an independent boundary predicate.)
+  All twelve units, on dates, timestamps and Oracle-style dates, against independent boundary predicates
+  (`Spec.IsBoundary`).  Layer 1 (sub-day units and weekday-anchored weeks by direct arithmetic) is in Lemmas/C10Base;
+  the calendar units use Lemmas/UnitsModel (crate code = closed form) and Lemmas/UnitsSpec (closed form = greatest boundary).
 -/
-import SqlDt.Props.C01
+import SqlDt.Lemmas.C10Base
+import SqlDt.Lemmas.UnitsModel
+import SqlDt.Lemmas.UnitsSpec
+
+
 namespace SqlDt.C10
-open SqlDt Gen
+open SqlDt Gen Spec
 
-/-- Boundary predicates on the microsecond line. -/
-def IsDayStart (b : Int) : Prop := b % 86400000000 = 0
-def IsHourStart (b : Int) : Prop := b % 3600000000 = 0
-def IsMinuteStart (b : Int) : Prop := b % 60000000 = 0
+/-- DATE TRUNCATION, every unit, every real date of years 1..9999: the crate returns the GREATEST unit boundary not after
+    the date (boundaries by the independent per-unit predicates `Spec.IsBoundary`: 1 January of a year ≡ 1 mod 100, the
+    Monday that starts the ISO year, day 1/8/15/22/29 of the month, …) when that boundary is representable, and
+    `DateOutOfRange` otherwise. -/
+theorem date_trunc (u : TUnit) (y m d : Int) (h : ValidYMD y m d) :
+    Date.trunc u (dayNumber y m d) = inRangeDay (truncOf u (y, m, d) (dayNumber y m d)) ∧
+    Spec.GreatestLE (IsBoundary u) (dayNumber y m d) (truncOf u (y, m, d) (dayNumber y m d)) :=
+  ⟨Lemmas.date_trunc_eq u y m d h, Lemmas.truncOf_greatest u y m d h.2.2⟩
 
-/-- `b` is the greatest instant satisfying `P` that is not later than `x`. -/
-def GreatestLE (P : Int → Prop) (x b : Int) : Prop := P b ∧ b ≤ x ∧ ∀ b', P b' → b' ≤ x → b' ≤ b
+/-- 0001-01-01 (a Monday, first day of a century) starts every unit except the Sunday week … -/
+theorem min_is_boundary (u : TUnit) (hu : u ≠ .sundayStartWeek) : IsBoundary u MIN_DAY := by
+  refine ⟨1, 1, 1, by decide, by decide, ?_⟩
+  cases u <;> first | (exact absurd rfl hu) | decide | skip
+  · exact ⟨by decide, 1, by decide, by decide⟩
 
-theorem ts_trunc_day (ts : Int) : ∃ b, Timestamp.trunc .day ts = .ok b ∧ GreatestLE IsDayStart ts b := by
-  refine ⟨ts - ts % 86400000000, ?_, ?_⟩
-  · simp only [Timestamp.trunc, Timestamp.date_eq, Timestamp.new, USECONDS_PER_DAY]
-    congr 1; omega
-  · unfold GreatestLE IsDayStart; refine ⟨by omega, by omega, ?_⟩
-    intro b' h1 h2; omega
+/-- … hence truncation NEVER fails for the other eleven units, and for the Sunday week it fails exactly when the
+    preceding Sunday lies before 0001-01-01 (the six dates 0001-01-01 .. 0001-01-06). -/
+theorem date_trunc_ok (u : TUnit) (hu : u ≠ .sundayStartWeek) (y m d : Int) (h : ValidYMD y m d) :
+    Date.trunc u (dayNumber y m d) = .ok (truncOf u (y, m, d) (dayNumber y m d)) := by
+  obtain ⟨he, hb, hle, hg⟩ := date_trunc u y m d h
+  have hr := Lemmas.dayNumber_range y m d h
+  have hmin := hg MIN_DAY (min_is_boundary u hu) (by unfold MIN_DAY; omega)
+  rw [he]; unfold inRangeDay MIN_DAY MAX_DAY at *
+  have : -719162 ≤ truncOf u (y, m, d) (dayNumber y m d) ∧ truncOf u (y, m, d) (dayNumber y m d) ≤ 2932896 := by omega
+  rw [if_pos this]
 
-theorem ts_trunc_hour (ts : Int) : ∃ b, Timestamp.trunc .hour ts = .ok b ∧ GreatestLE IsHourStart ts b := by
-  refine ⟨ts - ts % 3600000000, ?_, ?_⟩
-  · have ht : 0 ≤ ts % 86400000000 := by omega
-    simp only [Timestamp.trunc, Timestamp.hour, Timestamp.date_eq, Timestamp.time_eq, Time.hour_eq _ ht,
-      Timestamp.new, Time.fromHmsUnchecked, USECONDS_PER_DAY, USECONDS_PER_HOUR, USECONDS_PER_MINUTE, USECONDS_PER_SECOND]
-    congr 1; omega
-  · unfold GreatestLE IsHourStart; refine ⟨by omega, by omega, ?_⟩
-    intro b' h1 h2; omega
+/-- Never moves forward; idempotent; monotone (at the level of the crate's results). -/
+theorem date_trunc_le (u : TUnit) (y m d b : Int) (h : ValidYMD y m d) (hb : Date.trunc u (dayNumber y m d) = .ok b) :
+    b ≤ dayNumber y m d ∧ IsBoundary u b := by
+  obtain ⟨he, hbd, hle, _⟩ := date_trunc u y m d h
+  rw [he] at hb; unfold inRangeDay at hb
+  split at hb
+  · cases hb; exact ⟨hle, hbd⟩
+  · cases hb
 
-theorem ts_trunc_minute (ts : Int) : ∃ b, Timestamp.trunc .minute ts = .ok b ∧ GreatestLE IsMinuteStart ts b := by
-  refine ⟨ts - ts % 60000000, ?_, ?_⟩
-  · have ht : 0 ≤ ts % 86400000000 := by omega
-    simp only [Timestamp.trunc, Timestamp.date_eq, Timestamp.time_eq, Time.extract_eq _ ht,
-      Timestamp.new, Time.fromHmsUnchecked, USECONDS_PER_DAY, USECONDS_PER_HOUR, USECONDS_PER_MINUTE, USECONDS_PER_SECOND]
-    congr 1; omega
-  · unfold GreatestLE IsMinuteStart; refine ⟨by omega, by omega, ?_⟩
-    intro b' h1 h2; omega
+theorem date_trunc_mono (u : TUnit) (y m d y' m' d' b b' : Int) (h : ValidYMD y m d) (h' : ValidYMD y' m' d')
+    (hle : dayNumber y m d ≤ dayNumber y' m' d')
+    (hb : Date.trunc u (dayNumber y m d) = .ok b) (hb' : Date.trunc u (dayNumber y' m' d') = .ok b') : b ≤ b' := by
+  rw [Lemmas.date_trunc_eq u y m d h] at hb; rw [Lemmas.date_trunc_eq u y' m' d' h'] at hb'
+  unfold inRangeDay at hb hb'
+  split at hb
+  · split at hb'
+    · cases hb; cases hb'
+      exact Lemmas.truncOf_mono u y m d y' m' d' h.2.2 h'.2.2 hle
+    · cases hb'
+  · cases hb
 
-/-- A greatest boundary is unique, so truncation is idempotent and monotone for any unit characterised this way. -/
-theorem greatest_unique (P : Int → Prop) (x b b' : Int) (h : GreatestLE P x b) (h' : GreatestLE P x b') : b = b' := by
-  have := h.2.2 b' h'.1 h'.2.1; have := h'.2.2 b h.1 h.2.1; omega
+theorem date_trunc_idem (u : TUnit) (y m d y' m' d' : Int) (h : ValidYMD y m d) (h' : ValidYMD y' m' d')
+    (hb : Date.trunc u (dayNumber y m d) = .ok (dayNumber y' m' d')) :
+    Date.trunc u (dayNumber y' m' d') = .ok (dayNumber y' m' d') := by
+  rw [Lemmas.date_trunc_eq u y m d h] at hb
+  unfold inRangeDay at hb
+  split at hb
+  · have hb2 : truncOf u (y, m, d) (dayNumber y m d) = dayNumber y' m' d' := Except.ok.inj hb
+    have := Lemmas.truncOf_idem u y m d y' m' d' h.2.2 h'.2.2 hb2.symm
+    rw [Lemmas.date_trunc_eq u y' m' d' h', this]
+    have hr' := Lemmas.dayNumber_range y' m' d' h'
+    unfold inRangeDay MIN_DAY MAX_DAY
+    rw [if_pos hr']
+  · cases hb
 
-theorem greatest_idem (P : Int → Prop) (x b : Int) (h : GreatestLE P x b) : GreatestLE P b b :=
-  ⟨h.1, Int.le_refl _, fun _ _ h2 => h2⟩
+/-- TIMESTAMP TRUNCATION, every unit, every valid timestamp (`(y, m, d)` is the calendar date of its day):
+    date-sized units give that date's boundary at 00:00:00 (time of day cleared), hour/minute the top of the hour/minute. -/
+theorem ts_trunc (u : TUnit) (x : Int) (hx : isValidTimestamp x) (y m d : Int) (h : ValidYMD y m d)
+    (hd : dayNumber y m d = x / 86400000000) :
+    Timestamp.trunc u x = truncTsOf u (y, m, d) x :=
+  Lemmas.ts_trunc_eq u x hx y m d h hd
 
-theorem greatest_mono (P : Int → Prop) (x y bx bY : Int) (hxy : x ≤ y) (hx : GreatestLE P x bx) (hy : GreatestLE P y bY) :
-    bx ≤ bY := hy.2.2 bx hx.1 (by have := hx.2.1; omega)
+/-- Oracle-style dates truncate as timestamps (the result is a whole second, so the final floor is the identity). -/
+theorem od_trunc (u : TUnit) (x : Int) : OracleDate.trunc u x = (Timestamp.trunc u x).map OracleDate.fromTimestamp := by
+  unfold OracleDate.trunc; cases Timestamp.trunc u x <;> rfl
 
-/-! ### Week units anchored on the weekday (dates) -/
+example : ValidYMD 2015 6 15 ∧ Date.trunc .isoYear (dayNumber 2015 6 15) = .ok (dayNumber 2014 12 29) ∧
+    Date.trunc .century (dayNumber 2000 6 1) = .ok (dayNumber 1901 1 1) ∧
+    Date.trunc .monthStartWeek (dayNumber 2021 2 28) = .ok (dayNumber 2021 2 22) := by decide +kernel
 
-/-- Monday = 2 and Sunday = 1 in the crate's numbering. -/
-def IsMonday (d : Int) : Prop := (d + 4) % 7 = 1
-def IsSunday (d : Int) : Prop := (d + 4) % 7 = 0
-
-theorem subDays_zero (d : Int) (hd : isValidDate d) : Date.subDays d 0 = .ok d := by
-  have h := (isValidDate_iff d).1 hd
-  unfold Date.subDays checkedI32 Date.tryFromDays fitsI32 I32_MIN I32_MAX
-  have h1 : -2147483648 ≤ d - 0 ∧ d - 0 ≤ 2147483647 := by omega
-  have h2 : isValidDate (d - 0) := by rw [Int.sub_zero]; exact hd
-  simp only [h1, and_self, ↓reduceIte, h2]; congr 1; omega
-
-/-- ISO week: `trunc_iso_week` subtracts the days since the last Monday, and that Monday is the greatest
-    Monday not after the date. -/
-theorem date_trunc_isoWeek (d : Int) (hd : isValidDate d) :
-    Date.truncIsoWeek d = Date.subDays d ((d + 3) % 7) ∧ GreatestLE IsMonday d (d - (d + 3) % 7) := by
-  constructor
-  · unfold Date.truncIsoWeek Date.applyWeekTable
-    rw [C01.dayOfWeek_eq]
-    have : (d + 4) % 7 = 0 ∨ (d + 4) % 7 = 1 ∨ (d + 4) % 7 = 2 ∨ (d + 4) % 7 = 3 ∨ (d + 4) % 7 = 4 ∨
-        (d + 4) % 7 = 5 ∨ (d + 4) % 7 = 6 := by omega
-    rcases this with h | h | h | h | h | h | h <;> rw [h] <;>
-      simp [idx, TRUNC_ISO_WEEK_TABLE, bind, Except.bind, pure, Except.pure] <;>
-      first
-      | (congr 1; omega)
-      | (have e : (d + 3) % 7 = 0 := by omega
-         rw [e, subDays_zero d hd])
-  · unfold GreatestLE IsMonday; refine ⟨by omega, by omega, ?_⟩
-    intro b' h1 h2; omega
-
-/-- Sunday week: subtract the days since the last Sunday; fails exactly when that Sunday is before 0001-01-01. -/
-theorem date_trunc_sundayWeek (d : Int) :
-    Date.truncSundayStartWeek d = Date.subDays d ((d + 4) % 7) ∧ GreatestLE IsSunday d (d - (d + 4) % 7) := by
-  constructor
-  · unfold Date.truncSundayStartWeek; rw [C01.dayOfWeek_eq]; congr 1; omega
-  · unfold GreatestLE IsSunday; refine ⟨by omega, by omega, ?_⟩
-    intro b' h1 h2; omega
-
-/-- The Sunday-week truncation fails only for the six dates 0001-01-01 .. 0001-01-06 (0001-01-07 is a Sunday). -/
-theorem date_trunc_sundayWeek_fails_iff (d : Int) (hd : isValidDate d) :
-    (∃ e, Date.truncSundayStartWeek d = .error e) ↔ d < -719162 + 6 := by
-  have h := (isValidDate_iff d).1 hd
-  rw [(date_trunc_sundayWeek d).1]
-  unfold Date.subDays checkedI32 Date.tryFromDays fitsI32 I32_MIN I32_MAX
-  have h1 : -2147483648 ≤ d - (d + 4) % 7 ∧ d - (d + 4) % 7 ≤ 2147483647 := by omega
-  simp only [h1, and_self, ↓reduceIte]
-  by_cases h2 : isValidDate (d - (d + 4) % 7)
-  · have h2' := (isValidDate_iff _).1 h2
-    simp only [h2, ↓reduceIte]
-    constructor
-    · rintro ⟨e, he⟩; cases he
-    · intro h3; omega
-  · have h2' : ¬ (-719162 ≤ d - (d + 4) % 7 ∧ d - (d + 4) % 7 ≤ 2932896) := fun x => h2 ((isValidDate_iff _).2 x)
-    simp only [h2, ↓reduceIte]
-    constructor
-    · intro _; omega
-    · intro _; exact ⟨_, rfl⟩
-
-example : GreatestLE IsMonday 0 (-3) ∧ Date.truncIsoWeek 0 = .ok (-3) ∧ isValidDate 0 := by
-  refine ⟨?_, by decide, by decide⟩
-  unfold GreatestLE IsMonday; refine ⟨by decide, by decide, ?_⟩; intro b' h1 h2; omega
+/-! Sub-day units on timestamps, directly on the microsecond line (from Lemmas/C10Base). -/
+theorem ts_trunc_day (ts : Int) : ∃ b, Timestamp.trunc .day ts = .ok b ∧ C10B.GreatestLE C10B.IsDayStart ts b := C10B.ts_trunc_day ts
+theorem ts_trunc_hour (ts : Int) : ∃ b, Timestamp.trunc .hour ts = .ok b ∧ C10B.GreatestLE C10B.IsHourStart ts b := C10B.ts_trunc_hour ts
+theorem ts_trunc_minute (ts : Int) : ∃ b, Timestamp.trunc .minute ts = .ok b ∧ C10B.GreatestLE C10B.IsMinuteStart ts b :=
+  C10B.ts_trunc_minute ts
+theorem date_trunc_sundayWeek_fails_iff' (d : Int) (hd : isValidDate d) :
+    (∃ e, Date.truncSundayStartWeek d = .error e) ↔ d < -719162 + 6 := C10B.date_trunc_sundayWeek_fails_iff d hd
 
 end SqlDt.C10
